@@ -208,6 +208,68 @@ func sizeCases() []*c20Case {
 	}
 }
 
+// blankLineCases: lines made only of white space (blanks, tabs, \r, mixtures) and trailing white
+// space on real lines, at every position class (before the first command, directly behind a known
+// top-level command = first sub command position, between sub commands, behind an unknown command,
+// at the end of the file), in every file slot and both argument positions of drc.
+func blankLineCases() []*c20Case {
+	var out []*c20Case
+	ws := []string{" ", "   ", "\t", " \t ", "\r", "  \r"}
+	type tmpl struct{ class, text string }
+	cfg := map[string][]tmpl{
+		"ASA": {
+			{"before first command", "@\ninterface E0\n nameif inside\n"},
+			{"first sub command position", "interface E0\n@\n nameif inside\n"},
+			{"first sub command position, ACL", "access-list A extended permit ip any4 any4\n@\naccess-group A global\n"},
+			{"between sub commands", "interface E0\n nameif inside\n@\n shutdown\n"},
+			{"behind unknown command", "foo bar\n@\n nameif x\n"},
+			{"end of file", "interface E0\n nameif inside\n@"},
+			{"end of file with newline", "interface E0\n@\n"},
+			{"trailing white space", "interface E0@\n nameif inside@\n"},
+		},
+		"IOS": {
+			{"before first command", "@\nip route 10.0.0.0 255.0.0.0 10.1.1.1\n"},
+			{"first sub command position", "ip access-list extended A\n@\n permit ip any any\ninterface E0\n ip access-group A in\n"},
+			{"first sub command position, route", "ip route 10.0.0.0 255.0.0.0 10.1.1.1\n@\n"},
+			{"between sub commands", "interface E0\n ip address 10.1.1.1 255.255.255.0\n@\n shutdown\n"},
+			{"behind unknown command", "foo bar\n@\n sub x\n"},
+			{"end of file", "interface E0\n shutdown\n@"},
+			{"trailing white space", "ip route 10.0.0.0 255.0.0.0 10.1.1.1@\ninterface E0@\n shutdown@\n"},
+		},
+		"Linux": {
+			{"between lines", "*filter\n@\n:INPUT DROP\n@\n-A INPUT -j ACCEPT\n@\nCOMMIT\n@"},
+			{"trailing white space", "*filter@\n:INPUT DROP@\n-A INPUT -j ACCEPT@\nip route add 10.0.0.0/8 via 10.1.1.1@\n"},
+		},
+		"NSX":    {{"around JSON", "@\n{\"groups\":[],@\n\"policies\":[],\"services\":[]}@\n@"}},
+		"PAN-OS": {{"around XML", "@\n<config>@\n<devices></devices>@\n</config>@\n@"}},
+	}
+	slots := []string{"device", "code/router", "code/ipv6/router", "code/router.raw"}
+	for _, typ := range allTypes {
+		for _, t := range cfg[typ] {
+			for wi, w := range ws {
+				// all white space variants at the first-sub-command position, two elsewhere
+				if !strings.HasPrefix(t.class, "first sub command") && wi%3 != 0 {
+					continue
+				}
+				text := strings.ReplaceAll(t.text, "@", w)
+				for _, slot := range slots {
+					for _, pos := range []string{"A", "B"} {
+						f := map[string]string{"device": "", "code/router": "", "code/router.info": infoJSON(typ), "device.info": infoJSON(typ)}
+						f[slot] = text
+						args := []string{"-q", "device", "code/router"}
+						if pos == "B" {
+							args = []string{"-q", "code/router", "device"}
+						}
+						out = append(out, &c20Case{Prog: "drc", Args: args, Files: f, Type: typ,
+							Test: "blank:" + t.class + " in " + slot, Mut: fmt.Sprintf("white space %q pos=%s", w, pos), Class: "blank"})
+					}
+				}
+			}
+		}
+	}
+	return out
+}
+
 func buildMissingApprove(ctx *Ctx, res *Result) string {
 	dir, _ := os.MkdirTemp("", "c20bin")
 	bin := filepath.Join(dir, "missing-approve")
@@ -321,6 +383,9 @@ func runC20(ctx *Ctx) *Result {
 			push(c)
 		}
 		for _, c := range sizeCases() {
+			push(c)
+		}
+		for _, c := range blankLineCases() {
 			push(c)
 		}
 		i := 0
